@@ -135,6 +135,9 @@ func main() {
 				src = nsrc
 			} else {
 				fmt.Fprintf(os.Stderr, "vgen: channel rewrite of %s failed: %v (left as is)\n", rel, err)
+				// the blocking-consume check must not run on channels the scheduler cannot see
+				_ = os.MkdirAll(*out, 0o755)
+				_ = os.WriteFile(filepath.Join(*out, "chan_rewrite_failed"), []byte(err.Error()), 0o644)
 			}
 		}
 		f, err := parser.ParseFile(fset, p, src, parser.ParseComments)
